@@ -42,6 +42,9 @@ def load_catalogue():
     for p in sorted({m["prop"] for m in cat if m.get("source") != "builtin"}):
         cat.append({"id": "%s-eq-commute" % p.lower(), "prop": p, "kind": "equiv", "transform": "commute", "edits": [],
                     "why": "every `x * k`/`k + x` with a numeric literal and every single comparison written the other way round", "source": "builtin"})
+    for p in sorted({m["prop"] for m in cat if m.get("source") != "builtin"}):
+        cat.append({"id": "%s-eq-flip-else" % p.lower(), "prop": p, "kind": "equiv", "transform": "flip-else", "edits": [],
+                    "why": "every two-armed if/else written with the negated test and the arms exchanged", "source": "builtin"})
     return cat
 
 
@@ -183,6 +186,43 @@ def commute_tree(dest):
                         fh.write(out)
 
 
+def flip_else_tree(dest):
+    """every two-armed `if c: A else: B` (no elif) becomes `if not c: B else: A`; `not (x is None)`
+    style tests are respelled `x is not None` and back"""
+    import ast
+
+    class T(ast.NodeTransformer):
+        def visit_If(self, node):
+            self.generic_visit(node)
+            if node.orelse and not (len(node.orelse) == 1 and isinstance(node.orelse[0], ast.If)):
+                t = node.test
+                if isinstance(t, ast.UnaryOp) and isinstance(t.op, ast.Not):
+                    nt = t.operand
+                elif isinstance(t, ast.Compare) and len(t.ops) == 1 and isinstance(t.ops[0], (ast.Is, ast.IsNot, ast.In, ast.NotIn)):
+                    swap = {ast.Is: ast.IsNot, ast.IsNot: ast.Is, ast.In: ast.NotIn, ast.NotIn: ast.In}
+                    nt = ast.Compare(left=t.left, ops=[swap[type(t.ops[0])]()], comparators=t.comparators)
+                else:
+                    nt = ast.UnaryOp(op=ast.Not(), operand=t)
+                node.test, node.body, node.orelse = nt, node.orelse, node.body
+            return node
+
+    for base in ("hypnotoad", "examples"):
+        for dp, dn, fn in os.walk(os.path.join(dest, base)):
+            if "test_suite" in dp:
+                continue
+            for f in fn:
+                if f.endswith(".py"):
+                    p = os.path.join(dp, f)
+                    with open(p) as fh:
+                        src = fh.read()
+                    try:
+                        out = ast.unparse(ast.fix_missing_locations(T().visit(ast.parse(src)))) + "\n"
+                    except SyntaxError:
+                        continue
+                    with open(p, "w") as fh:
+                        fh.write(out)
+
+
 def reformat_tree(dest, rename=False):
     import ast
     for base in ("hypnotoad", "examples"):
@@ -240,6 +280,8 @@ def run_one(m, root):
             annotate_alias_tree(tmp)
         elif m.get("transform") == "commute":
             commute_tree(tmp)
+        elif m.get("transform") == "flip-else":
+            flip_else_tree(tmp)
         env = dict(os.environ)
         env["VERIF_REPO"] = tmp
         env["HV_EVIDENCE_DIR"] = os.path.join(tmp, "_ev")
